@@ -16,16 +16,18 @@ theorem walkFinal_inv (W : World) (fn : Bool) (I O : List VId) (p : GId) :
     Inv W p fn I O (walkFinal W fn I O p) :=
   walk_inv _ (walkInit_inv W p fn I O)
 
-/-- **C18_external_exact**: `_collect_all_external_values(parent, g)` is exactly the set of values that are
-    used by a node of `g` or of a graph nested in `g` at any depth and whose owning graph is `parent`. -/
+/-- **C18_external_exact**: `_collect_all_external_values(parent, g)` (with the D47 fix) is exactly the set of
+    values that are used by a node of `g` or of a graph nested in `g` at any depth and that come from outside
+    `g`: their owning graph is `parent`, or it is neither `g` nor a graph nested in `g`. -/
 theorem C18_external_exact (W : World) (p : GId) (g : GraphT) (v : VId) :
-    v ∈ externalValues W p g ↔ UsedInG g v ∧ W.graphOf v = some p :=
+    v ∈ externalValues W p g ↔
+      UsedInG g v ∧ (W.graphOf v = some p ∨ ∀ k, NestedIn g k → W.graphOf v ≠ some k) :=
   mem_externalValues
 
 /-- **C18_values_exact**: the walk visits exactly the boundary inputs and the required values (the least
     set containing the uncut outputs and closed under "needed by the producer of a required value, unless
-    cut by a boundary input"; needed = direct input, or value of the region's graph used at any depth inside
-    a graph attribute). -/
+    cut by a boundary input"; needed = direct input, or value used at any depth inside a graph attribute of
+    the node and owned by none of the graphs nested there, see `Needs`). -/
 theorem C18_values_exact (W : World) (fn : Bool) (I O : List VId) (p : GId) (v : VId) :
     v ∈ (walkFinal W fn I O p).valsV ↔ v ∈ I ∨ Reach W p I O v := by
   have h := walkFinal_inv W fn I O p
@@ -325,8 +327,8 @@ theorem C18_cover_of_clone {W : World} {fn : Bool} {g I O : List VId} {p : GId} 
       | nested hb hdb => exact absurd hdb (hscope u hu n hnn _ hb)
 
 /-- **C18_raises_of_uncovered**: for the whole `extract` pipeline — if some required value (an uncut output,
-    an input of a required node, or a value of the region's graph captured at any depth by a nested graph of
-    a required node) is neither a boundary input, nor an initializer, nor produced by a node, then `extract`
+    an input of a required node, or a value captured from outside at any depth by a nested graph of a
+    required node) is neither a boundary input, nor an initializer, nor produced by a node, then `extract`
     raises (in the argument checks, the frontier validation, or the clone). -/
 theorem C18_raises_of_uncovered {W : World} {T : Target} {ins outs : List Arg} {view : View}
     (h : extract W T ins outs = .ok view)
